@@ -264,6 +264,9 @@ class LinesTransportMixin:
         tags: list[str] | None = None,
     ) -> bytes:
         data = await asyncio.wait_for(self.get_reader().readline(), timeout)
+        if not data.endswith(b"\n"):
+            # EOF in the middle of a line: the message is incomplete, report end-of-stream.
+            data = b""
         d = data.decode().strip()
 
         t = tags + ["read"] if tags is not None else ["read"]
